@@ -54,3 +54,31 @@ def analyse_manual_fmt(lf):
             if not okk:
                 findings.append(("unknown-external", tyname, trn, k2, "hand-written %s for %s calls %s, which has no contract" % (trn, tyname, k2)))
     return nfmt, nman, findings
+
+
+def analyse_error_conversions(lf):
+    """`From<..> for Error` impls are run by `?` on every rejected line: each is interpreted on an
+    arbitrary argument of its source type; every panic is an obligation.  -> (count, findings)"""
+    from . import c01
+    n = 0
+    findings = []
+    for b in sorted(lf.bodies.values(), key=lambda b: b["def"]):
+        tr = b.get("impl_trait") or ""
+        if not (tr.endswith("convert::From") and (b.get("impl_self") or "").endswith("Error") and b["def"].endswith("::from") and b["arg_count"] == 1):
+            continue
+        n += 1
+        src = (b.get("impl_trait_ref") or b["def"])
+        FI = Interp(lf, xform.EXT)
+        st0 = St()
+        try:
+            arg = sym_of_type(FI, st0, b["locals"][1], "err")
+            FI.exec_fn(st0, b, [arg])
+            c01.finish_leaves(FI)
+        except Unanalysable as u:
+            findings.append(("unanalysable", src, "-", "reason=unanalysable: error conversion %s cannot be followed: %s" % (src, u.what)))
+            continue
+        for site, o in sorted(FI.obl.items(), key=lambda x: repr(x[0])):
+            if o.failures:
+                findings.append(("panic", src, o.kind.replace(" ", "_"),
+                                 "the error conversion %s, run by `?` on a rejected line, can panic: %s at %s (%s): %s" % (src, o.kind, o.loc, site[0], o.failures[0][0])))
+    return n, findings
